@@ -488,6 +488,215 @@ Definition lz_prepare (hash : N -> N) (st : lzst) (reference : list N) : outcome
     obnd (build_go hash (key_len st) (lenN rp) mask (S (length rp)) 0 rp (repeat empty_slot (N.to_nat size)))
       (fun t => Ok (mk_lzst rp (lenN rp) (lenN reference) t mask (mml st) (key_len st) (key_mask st)))).
 
+(* ---------------------------------------------------------------- cost vector / estimate
+   (correspondence only: no C09 theorem is about them; same loop skeleton as encode) *)
+Definition int_len (x : N) : N :=
+  if x <? 10 then 1 else if x <? 100 then 2 else if x <? 1000 then 3 else if x <? 10000 then 4
+  else if x <? 100000 then 5 else if x <? 1000000 then 6 else if x <? 10000000 then 7
+  else if x <? 100000000 then 8 else if x <? 1000000000 then 9 else 10.
+Definition uint_len_v2 (x : N) : N :=
+  if x <? 10 then 1 else if x <? 100 then 2 else if x <? 1000 then 3 else if x <? 10000 then 4
+  else if x <? 100000 then 5 else if x <? 1000000 then 6 else if x <? 10000000 then 7 else 8.
+
+(* (-dif_pos) as u32 / dif_pos as u32 of an i32 *)
+Definition abs_u32 (z : Z) : N := as_u32 (Z.abs z).
+
+Definition coding_cost_nrun (len : N) : outcome N :=
+  match sub_u32 len min_nrun_len with
+  | None => Panic
+  | Some d => Ok (1 + int_len d + 1)
+  end.
+
+Definition coding_cost_match (st : lzst) (match_pos len pred_pos : N) : outcome N :=
+  match sub_i32 (as_i32 match_pos) (as_i32 pred_pos), sub_u32 len (mml st) with
+  | Some dif, Some delta =>
+    let pos_digits := if (0 <=? dif)%Z then int_len (abs_u32 dif) else int_len (abs_u32 dif) + 1 in
+    Ok (pos_digits + int_len delta + 2)
+  | _, _ => Panic
+  end.
+
+(* push tc and total-1 zeros (prefix) or the zeros first (suffix), on the reversed vector *)
+Definition push_cost (prefix : bool) (tc n : N) (rv : list N) : list N :=
+  let zeros := repeat 0 (N.to_nat n - 1) in
+  if prefix then zeros ++ tc :: rv else tc :: zeros ++ rv.
+
+Section Cost.
+  Variable hash : N -> N.
+  Variable st : lzst.
+  Variable tgt : list N.
+  Variable tlen : N.
+  Variable prefix : bool.
+
+  Fixpoint cost_loop (fuel : nat) (i : N) (suf : list N) (pp npl : N) (xprev : option N) (rv : list N)
+    : outcome (list N) :=
+    match fuel with
+    | O => Err
+    | S f =>
+      if i + key_len st <? tlen then
+        let lit := fun (x : option N) =>
+          match suf with
+          | [] => Panic
+          | _ :: suf' =>
+            match add_u32 pp 1 with
+            | None => Panic
+            | Some pp' => cost_loop f (i + 1) suf' pp' (npl + 1) x (1 :: rv)
+            end
+          end in
+        let xo := match xprev with
+                  | Some prev => if 0 <? npl then get_code_skip1 st prev suf else get_code st suf
+                  | None => get_code st suf
+                  end in
+        match xo with
+        | Panic => Panic
+        | Err => Err
+        | Ok None =>
+          let nrun := get_nrun_len suf (tlen - i) in
+          if min_nrun_len <=? nrun then
+            obnd (coding_cost_nrun nrun) (fun tc =>
+              cost_loop f (i + nrun) (skipnN nrun suf) pp 0 None (push_cost prefix tc nrun rv))
+          else lit None
+        | Ok (Some code) =>
+          match find_best_match_lp st code (hash code) tgt suf i (tlen - i) npl with
+          | Panic => Panic
+          | Err => Err
+          | Ok None => lit (Some code)
+          | Ok (Some (mp, lb, lf)) =>
+            let rv1 := skipnN lb rv in
+            match sub_u64 i lb, sub_u32 pp lb, add_u32 lb lf, sub_u32 mp lb with
+            | Some i1, Some pp1, Some total, Some amp =>
+              match coding_cost_match st amp total pp1, add_u32 amp total with
+              | Ok tc, Some pp2 =>
+                cost_loop f (i1 + total) (skipnN lf suf) pp2 0 (Some code) (push_cost prefix tc total rv1)
+              | Err, _ => Err
+              | _, _ => Panic
+              end
+            | _, _, _, _ => Panic
+            end
+          end
+        end
+      else Ok (repeat 1 (length suf) ++ rv)
+    end.
+End Cost.
+
+Definition lz_cost_vector (hash : N -> N) (st : lzst) (tgt : list N) (prefix : bool) : outcome (list N) :=
+  match refp st with
+  | [] => Ok []
+  | _ :: _ => obnd (cost_loop hash st tgt (lenN tgt) prefix (S (length tgt)) 0 tgt 0 0 None [])
+                   (fun rv => Ok (rev rv))
+  end.
+
+Definition cost_match_v2 (st : lzst) (ref_pos : N) (len : option N) (pred_pos : N) : outcome N :=
+  match sub_i32 (as_i32 ref_pos) (as_i32 pred_pos) with
+  | None => Panic
+  | Some dif =>
+    let r := if (0 <=? dif)%Z then uint_len_v2 (abs_u32 dif) else 1 + uint_len_v2 (abs_u32 dif) in
+    match len with
+    | None => Ok (r + 1)
+    | Some l => match sub_u32 l (mml st) with
+                | None => Panic
+                | Some d => Ok (r + (1 + uint_len_v2 d) + 1)
+                end
+    end
+  end.
+
+Section Est.
+  Variable hash : N -> N.
+  Variable st : lzst.
+  Variable tgt : list N.
+  Variable tlen : N.       (* text_size : u32 *)
+  Variable bound : N.
+
+  (* returns (est_cost, i) at loop exit, or the early-return value *)
+  Fixpoint est_loop (fuel : nat) (i : N) (suf : list N) (pp npl : N) (xprev : option N) (est : N)
+    : outcome (N * option N) :=
+    match fuel with
+    | O => Err
+    | S f =>
+      match add_u32 i (key_len st) with
+      | None => Panic
+      | Some ik =>
+        if ik <? tlen then
+          if bound <? est then Ok (est, None)
+          else
+            let lit := fun (x : option N) =>
+              match suf with
+              | [] => Panic
+              | _ :: suf' =>
+                match add_u32 est 1, add_u32 i 1, add_u32 pp 1, add_u32 npl 1 with
+                | Some est', Some i', Some pp', Some npl' => est_loop f i' suf' pp' npl' x est'
+                | _, _, _, _ => Panic
+                end
+              end in
+            let xo := match xprev with
+                      | Some prev => if 0 <? npl then get_code_skip1 st prev suf else get_code st suf
+                      | None => get_code st suf
+                      end in
+            match xo with
+            | Panic => Panic
+            | Err => Err
+            | Ok None =>
+              let nrun := get_nrun_len suf (tlen - i) in
+              if min_nrun_len <=? nrun then
+                match sub_u32 nrun min_nrun_len with
+                | None => Panic
+                | Some d =>
+                  match add_u32 est (2 + uint_len_v2 d), add_u32 i nrun with
+                  | Some est', Some i' => est_loop f i' (skipnN nrun suf) pp 0 None est'
+                  | _, _ => Panic
+                  end
+                end
+              else lit None
+            | Ok (Some code) =>
+              match find_best_match_lp st code (hash code) tgt suf i (tlen - i) npl with
+              | Panic => Panic
+              | Err => Err
+              | Ok None => lit (Some code)
+              | Ok (Some (mp, lb, lf)) =>
+                match add_u32 lb lf with
+                | None => Panic
+                | Some total =>
+                  match add_u32 i total, add_u32 mp total with
+                  | Some it, Some mt =>
+                    let is_end := (it =? tlen) && (mt =? ref_len st) in
+                    match cost_match_v2 st mp (if is_end then None else Some total) pp with
+                    | Ok c =>
+                      match add_u32 est c with
+                      | Some est' => est_loop f it (skipnN total suf) mt 0 (Some code) est'
+                      | None => Panic
+                      end
+                    | Err => Err
+                    | Panic => Panic
+                    end
+                  | _, _ => Panic
+                  end
+                end
+              end
+            end
+        else Ok (est, Some i)
+      end
+    end.
+End Est.
+
+Definition lz_estimate (hash : N -> N) (st : lzst) (tgt : list N) (bound : N) : outcome N :=
+  match ht st with
+  | [] => Ok (wrap32 (lenN tgt))
+  | _ :: _ =>
+    let tlen := wrap32 (lenN tgt) in
+    if (tlen =? wrap32 (ref_len st)) && zip_all_eq tgt (refp st) then Ok 0
+    else
+      match est_loop hash st tgt tlen bound (S (length tgt)) 0 tgt 0 0 None 0 with
+      | Ok (est, None) => Ok est
+      | Ok (est, Some i) => Ok (wrap32 (est + wrap32 (tlen + two32 - i)))
+      | Err => Err
+      | Panic => Panic
+      end
+  end.
+
+Definition cost_vector (m : N) (reference tgt : list N) (prefix : bool) : outcome (list N) :=
+  obnd (lz_new m) (fun st0 => obnd (lz_prepare murmur64 st0 reference) (fun st => lz_cost_vector murmur64 st tgt prefix)).
+Definition estimate (m : N) (reference tgt : list N) (bound : N) : outcome N :=
+  obnd (lz_new m) (fun st0 => obnd (lz_prepare murmur64 st0 reference) (fun st => lz_estimate murmur64 st tgt bound)).
+
 (* ---------------------------------------------------------------- public entry points *)
 Definition encode_with (hash : N -> N) (m : N) (reference tgt : list N) : outcome (list N) :=
   obnd (lz_new m) (fun st0 => obnd (lz_prepare hash st0 reference) (fun st => lz_encode hash st tgt)).
